@@ -90,6 +90,9 @@ func scopesC08(thorough bool) []Scope {
 			IDSets: [][]int{{0}, {1}, {2}, {3}, {0, 3}, {1, 3}, {2, 3}, {1, 2}, {0, 1, 2, 3}}, Cfgs: keepCfgs},
 		{Name: "C-walk-deep", GS: synthGS(2, 2, [2]int64{31, 31}), Spec: lat.Spec{Points: lat.Centres(2, 2), MinK: 1, MaxK: k(5, 7), Repeats: true}, IDSets: subsetsOf([]int{0, 1, 2}), Cfgs: keepCfgs},
 	}
+	// ids far apart on a six-level grid: a 2x2 window of id-2 pixels (1/4 of an id-0 pixel wide, 8x8 pixels of id 5)
+	scs = append(scs, Scope{Name: "L-multi6-spaced", GS: synthGS(5, 2, [2]int64{240, 240}), Spec: lat.Spec{Points: scale(lat.Window(2, 2, 2), 8), MaxK: k(3, 4), Valid: true},
+		IDSets: [][]int{{0}, {1}, {2}, {3}, {4}, {5}, {0, 5}, {1, 4}, {0, 2, 5}, {0, 3}, {2, 5}, {5, 1}, {1, 3, 5}, {0, 1, 2, 3, 4, 5}}, Cfgs: keepCfgs})
 	// the id LIST as written: descending, largest id not last, duplicates (the result is keyed by id whatever the order)
 	scs = append(scs, Scope{Name: "L-multi-id-lists", GS: synthGS(2, 2, [2]int64{28, 28}), Spec: lat.Spec{Points: scale(lat.Window(2, 2, 2), 4), MaxK: k(4, 5), Valid: true},
 		IDSets: [][]int{{0}, {1}, {2}, {1, 0}, {2, 0}, {2, 1}, {2, 1, 0}, {1, 2, 0}, {0, 2, 1}, {2, 0, 1}, {0, 0, 1}, {1, 1, 0}, {2, 2}, {0, 2, 2}, {2, 2, 0, 0}}, Cfgs: keepCfgs})
